@@ -74,9 +74,9 @@ func c14CheckRange(idx int, r c14Range) {
 	name := fmt.Sprintf("t_%d", idx)
 	t := vNondetRange(name, r.lo, r.hi-1)
 	vReach("reach")
-	c14CheckTick(t, r.hi < 0)
+	vScope(func() { c14CheckTick(t, r.hi < 0) })
 	// seam: last tick of the range and first tick of the next one, concretely
-	c14CheckTick(r.hi, r.hi < 0)
+	vScope(func() { c14CheckTick(r.hi, r.hi < 0) })
 }
 
 func c14CheckTick(t int64, neg bool) {
@@ -155,12 +155,12 @@ func c14Bucket(idx int, r c14Range) {
 	t := vNondetRange(fmt.Sprintf("bt_%d", idx), r.lo+2, r.hi-3)
 	eLo, _ := TickToSqrtPrice(r.lo)
 	eHi, _ := TickToSqrtPrice(r.hi + 1)
-	c14BucketTick(idx, 0, t, c14Raw(eLo), c14Raw(eHi))
+	vScope(func() { c14BucketTick(idx, 0, t, c14Raw(eLo), c14Raw(eHi)) })
 	for n, c := range []int64{r.lo, r.lo + 1, r.hi - 2, r.hi - 1, r.hi} {
 		if c+1 <= types.MaxTick-2 { // the implementation clamps candidates at MaxTick-2; the last buckets are covered by VH_C14_edges
 			cLo, _ := TickToSqrtPrice(c)
 			cHi, _ := TickToSqrtPrice(c + 1)
-			c14BucketTick(idx, n+1, c, c14Raw(cLo), c14Raw(cHi))
+			vScope(func() { c14BucketTick(idx, n+1, c, c14Raw(cLo), c14Raw(cHi)) })
 		}
 	}
 }
@@ -314,6 +314,15 @@ func VH_C14_edges() {
 	vAssert(e0 == nil && c14Raw(p0).Cmp(c14S) == 0, "price(0)=1")
 	pm, em := TickToPrice(types.MinInitializedTickV2)
 	vAssert(em == nil && pm.Equal(types.MinSpotPriceV2), "price(min)=MinSpotPriceV2")
+	// the sqrt price of the special minimum ticks can be taken repeatedly without disturbing anything
+	sMin1, eMin1 := TickToSqrtPrice(types.MinInitializedTickV2)
+	sMin2, eMin2 := TickToSqrtPrice(types.MinCurrentTickV2)
+	sMin3, eMin3 := TickToSqrtPrice(types.MinInitializedTickV2)
+	vAssert(eMin1 == nil && eMin2 == nil && eMin3 == nil && sMin1.Equal(sMin3) && sMin1.Equal(sMin2), "sqrt(min):repeatable")
+	vAssert(new(big.Int).Mul(c14Raw(sMin1), c14Raw(sMin1)).Cmp(new(big.Int).Mul(c14Raw(types.MinSpotPriceV2), c14S)) >= 0, "sqrt(min):square-at-least-price")
+	vAssert(c14Raw(types.MinSpotPriceV2).Cmp(big.NewInt(1000000)) == 0, "MinSpotPriceV2:unchanged-after-use")
+	pmAgain, emAgain := TickToPrice(types.MinInitializedTickV2)
+	vAssert(emAgain == nil && c14Raw(pmAgain).Cmp(big.NewInt(1000000)) == 0, "price(min):unchanged-after-sqrt")
 	pm1, em1 := TickToPrice(types.MinInitializedTickV2 + 1)
 	vAssert(em1 == nil && pm.LT(pm1), "price(min)<price(min+1)")
 	pM, eM := TickToPrice(types.MaxTick)
